@@ -17,7 +17,7 @@ import os, re, sys
 
 SRC = os.path.join(os.environ.get("ORX_REPO_SRC", "/repo"), "src")
 VERIF = os.path.dirname(os.path.dirname(os.path.abspath(__file__)))
-OUT = os.path.join(VERIF, "lean", "Orx", "Generated", "Arith.lean")
+OUT = os.path.join(os.environ.get("ORX_LEAN_DIR", os.path.join(VERIF, "lean")), "Orx", "Generated", "Arith.lean")
 
 LEAN_KEYWORDS = {"end", "from", "at", "then", "do", "fun", "show", "have", "open", "in", "with", "by", "if", "else", "let",
                  "match", "where", "def", "theorem", "instance", "class", "structure", "namespace", "section", "import",
@@ -764,6 +764,21 @@ TARGETS = [
       params={"iter": "RangeSelf"}, recv={"iter": "Range"}),
 ]
 
+# cloned() / copied() over the slice iterator (vecref / arrref are slice iterators too)
+for (A, f, bf, big) in (("Cloned", "iter/cloned.rs", "iter/buffered/cloned_buffered_chunk.rs", "ClonedBufferedChunk"),
+                        ("Copied", "iter/copied.rs", "iter/buffered/copied_buffered_chunk.rs", "CopiedBufferedChunk")):
+    TARGETS.append(T(A, f, r"impl<'a, T, A> %s<'a, T, A>" % A, ["underlying_iter"], "AdaptSelf SliceSelf"))
+    TARGETS.append(T(A, f, r"AtomicIter<T> for %s" % A, ["counter", "progress_and_get_begin_idx", "get", "fetch_n", "early_exit"],
+                     "AdaptSelf SliceSelf", recv={"self.iter": "Slice"}))
+    TARGETS.append(T(A, f, r"AtomicIterWithInitialLen<T> for %s" % A, ["initial_len"], "AdaptSelf SliceSelf", recv={"self.iter": "Slice"}))
+    TARGETS.append(T(A, "iter/atomic_iter.rs", r"trait AtomicIter<", ["fetch_one"], "AdaptSelf SliceSelf"))
+    TARGETS.append(T(A, f, r"ConcurrentIter for %s" % A, ["into_seq_iter", "next_id_and_value", "next_chunk", "skip_to_end", "try_get_len"],
+                     "AdaptSelf SliceSelf", recv={"self.iter": "Slice"}))
+    TARGETS.append(T("Buf" + A, bf, r"BufferedChunk<T> for %s" % big, ["chunk_size", "pull"], "AdaptBufSelf",
+                     params={"iter": "AdaptSelf SliceSelf"}, recv={"self.chunk": "BufSlice", "iter": A}))
+    TARGETS.append(T("BufferedIter" + A, "iter/buffered/buffered_iter.rs", r"impl<'a, T, B> BufferedIter", ["next"],
+                     "BufferedIterSelfA (AdaptSelf SliceSelf)", recv={"self.atomic_iter": A, "self.buffered_iter": "Buf" + A}))
+
 # BufferedIter::next / new, instantiated per kind
 for (k, b) in (("Slice", "BufSlice"), ("Vec", "BufVec"), ("Arr", "BufArr"), ("Range", "BufRange")):
     TARGETS.append(T("BufferedIter" + k, "iter/buffered/buffered_iter.rs", r"impl<'a, T, B> BufferedIter", ["next"],
@@ -848,8 +863,6 @@ def main():
                             term = re.sub(r"\b%s\.%s\b(?! N\b)" % (ns2, re.escape(lid(f2))), "%s.%s N" % (ns2, lid(f2)), term)
             chunks.append(("%s.%s" % (t["ns"], lid(fn)), "/-- `%s::%s` (src/%s) -/\ndef %s.%s%s :=\n  (%s : M _)\n" % (t["ns"], fn, t["file"], t["ns"], lid(fn), sig, term), term))
             report.append((t["ns"], fn, em.unsupported))
-    header = ("/- GENERATED by tools/rs2lean.py from the Rust sources on every run -- do not edit. -/\n"
-              "import Orx.RS.Prim\nset_option linter.unusedVariables false\nnamespace Orx.Gen\nopen Orx Orx.RS\n\n")
     # definitions in dependency order (Lean needs a callee before its caller)
     names = [c[0] for c in chunks]
     deps = {n: [m for m in names if m != n and re.search(r"(?<![\w.])%s(?![\w.])" % re.escape(m), term)] for (n, _, term) in chunks}
@@ -867,8 +880,36 @@ def main():
     for n in names:
         visit(n)
     text_of = {c[0]: c[1] for c in chunks}
-    body = header + "\n".join(text_of[n] for n in order) + "\nend Orx.Gen\n"
-    os.makedirs(os.path.dirname(OUT), exist_ok=True)
+    # one Lean file per group of Rust files, so that a change in one source file only touches the theorems about it
+    def group_of(name):
+        ns = name.split(".")[0]
+        if ns == "Counter":
+            return "Counter"
+        if ns == "BufferedIterNew":
+            return "New"
+        for g in ("Cloned", "Copied"):
+            if g in ns:
+                return "Adapt"
+        for g in ("Slice", "Vec", "Arr", "Range"):
+            if ns.endswith(g):
+                return g
+        raise SyntaxError("no group for " + name)
+    groups = {}
+    for n in order:
+        groups.setdefault(group_of(n), []).append(n)
+    gdeps = {g: sorted({group_of(m) for n in ns_ for m in deps[n]} - {g}) for g, ns_ in groups.items()}
+    gen_dir = os.path.dirname(OUT)
+    os.makedirs(gen_dir, exist_ok=True)
+    for g, ns_ in groups.items():
+        header = ("/- GENERATED by tools/rs2lean.py from the Rust sources on every run -- do not edit. -/\n"
+                  "import Orx.RS.Prim\n" + "".join("import Orx.Generated.Arith%s\n" % d for d in gdeps[g]) +
+                  "set_option linter.unusedVariables false\nnamespace Orx.Gen\nopen Orx Orx.RS\n\n")
+        body = header + "\n".join(text_of[n] for n in ns_) + "\nend Orx.Gen\n"
+        path = os.path.join(gen_dir, "Arith%s.lean" % g)
+        old = open(path).read() if os.path.exists(path) else None
+        if old != body:
+            open(path, "w").write(body)
+    body = ("/- GENERATED by tools/rs2lean.py -- do not edit. -/\n" + "".join("import Orx.Generated.Arith%s\n" % g for g in sorted(groups)))
     old = open(OUT).read() if os.path.exists(OUT) else None
     if old != body:
         open(OUT, "w").write(body)
